@@ -3,6 +3,8 @@ from . import c13, wrappers
 
 
 def run(check, pool, Task):
+    from . import validate
+    validate.apply(check, ['bounds_kernels'])
     thorough = check.tier == 'thorough'
     cap = 600
     check.bounds.update({'kernel': 'total_bounds_interleaved(_1d) on <= 4 (6) vertices, bounds_interleaved on <= 3 elements, every coordinate Real with a NaN '
